@@ -366,6 +366,87 @@ func C12(c *fw.Ctx) {
 	}
 	c.R.Traces = c.R.Transitions
 	objNames(c, bound)
+	objValues(c, bound)
+}
+
+// objValues: a property exists whatever value it holds: for every value of a pool covering every kind
+// (nil, both booleans, zero, the empty string, empty containers, a function ...), as an initialiser and
+// as an assigned value: read, listed, removed, listed again, removed twice (an error), under every
+// iteration-order schedule within the bound.
+func objValues(c *fw.Ctx, bound int) {
+	id, num := model.Id, model.Num
+	vals := []pval{
+		{"nil", model.Nil}, {"false", func() *model.N { return model.Bool(false) }}, {"true", func() *model.N { return model.Bool(true) }},
+		{"0", func() *model.N { return num(0) }}, {"empty-string", func() *model.N { return model.Str("") }}, {"string", func() *model.N { return model.Str("s") }},
+		{"empty-array", func() *model.N { return model.Arr() }}, {"empty-object", func() *model.N { return model.Obj(nil, nil) }},
+		{"function", func() *model.N { return id("nf") }}, {"nil-result", func() *model.N { return model.CallN("nf") }},
+		{"unset-variable", func() *model.N { return id("unset") }},
+	}
+	c.Bound("property_value_kinds", len(vals))
+	for _, v := range vals {
+		for form := 0; form < 3; form++ {
+			for last := 0; last < 3; last++ {
+				if !c.Mine() {
+					continue
+				}
+				prog := []*model.N{model.Fun("nf", nil), model.Var("unset", nil)}
+				switch form {
+				case 0:
+					prog = append(prog, model.Var("o", model.Obj([]string{"b", "a"}, []*model.N{num(1), v.Mk()})))
+				case 1:
+					prog = append(prog, model.Var("o", model.Obj([]string{"b"}, []*model.N{num(1)})), model.ExprS(model.PAsg(id("o"), "a", v.Mk())))
+				case 2:
+					prog = append(prog, model.Var("o", model.Obj([]string{"a", "b"}, []*model.N{num(5), num(1)})), model.Var("r", id("o")), model.ExprS(model.PAsg(id("r"), "a", v.Mk())))
+				}
+				prog = append(prog, model.Print(model.Prop(id("o"), "a")), model.Print(id("o")))
+				prog = append(prog, objListing("o")...)
+				prog = append(prog, model.ExprS(model.CallN(model.BiDelete, id("o"), model.Str("a"))), model.Print(id("o")))
+				prog = append(prog, objListing("o")...)
+				switch last {
+				case 0:
+					prog = append(prog, model.ExprS(model.CallN(model.BiDelete, id("o"), model.Str("a"))), T("unreachable"))
+				case 1:
+					prog = append(prog, model.Print(model.Prop(id("o"), "a")), T("unreachable"))
+				case 2:
+					prog = append(prog, model.ExprS(model.PAsg(id("o"), "a", v.Mk())), model.Print(id("o")), model.ExprS(model.CallN(model.BiDelete, id("o"), model.Str("b"))), model.Print(id("o")))
+				}
+				prog = parenAll(prog)
+				src := model.Render(prog)
+				res := (&model.Machine{}).Run(prog)
+				if res.Unspec != "" || res.Diverged {
+					c.Skip("unspecified: " + res.Unspec)
+					continue
+				}
+				n, _ := exploreChoices(c, func(prefix []int) h.Outcome {
+					return h.RunFile(src, h.Opts{Prefix: prefix, Fuel: fuelFor(res)})
+				}, bound, func(prefix []int, o h.Outcome) {
+					c.Eval(fmt.Sprint(prefix)+src, true)
+					c.Outcome(o.Stdout)
+					base := fw.Replay{Mode: "file", Program: src, Choices: append([]int{}, prefix...), CLI: len(prefix) == 0, InStdout: o.Stdout, InStderr: o.Stderr, InStatus: o.Status}
+					if abnormal(c, o, "file", src, base) {
+						return
+					}
+					why := compareObjOutput(res.Stdout(), o.Stdout)
+					if why == "" && (res.Err != nil) != (o.Status == 70 && o.Stderr != "") {
+						why = fmt.Sprintf("runtime error expected: %v; status %d stderr %q", res.Err != nil, o.Status, trunc(o.Stderr, 100))
+					}
+					if why == "" && res.Err != nil && res.Err.Line > 0 && runtimeDiagLine(o.Stderr) != res.Err.Line {
+						why = fmt.Sprintf("error expected on line %d: %q", res.Err.Line, trunc(o.Stderr, 100))
+					}
+					if why != "" {
+						r := base
+						r.Sig = "C12|property-values|" + v.Name
+						r.What = "a property holding a value of this kind: read, listed, removed, re-added"
+						r.Expected, r.Observed = res.Stdout(), o.Stdout+" ("+why+")"+fmt.Sprintf(" schedule %v", prefix)
+						c.Violate(r)
+					}
+				})
+				c.Add("schedules", int64(n))
+				c.R.States++
+				c.R.Transitions += int64(n)
+			}
+		}
+	}
 }
 
 // objNames: objects whose property names are easily confused with each other (leading zeros, the same
